@@ -277,11 +277,34 @@ def r5(run, ctx):
                           % nm, e, s.node.ast, "'%s' swallows the conflict refusal" % nm)
     run.count('R5', n, 8, 'synchronized calls made by commands')
     d = ctx.fn('circus.controller:Controller.dispatch')
+    # in the handler that catches ConflictError, the errno handed to send_error when the
+    # exception is a ConflictError (and none of the other classes tested there)
+    from sa.dataflow import reaching_defs
+    from sa.idioms import nodes_within
+    rd = reaching_defs(ctx, d)
+    dcfg = ctx.cfg(d)
+
+    def is_conflict(e, var=None):
+        if isinstance(e, ast.Call) and dotted(e.func) == 'isinstance' and len(e.args) == 2 and \
+                isinstance(e.args[0], ast.Name) and e.args[0].id == var:
+            return norm_text(e.args[1]).split('.')[-1] == 'ConflictError'
+        return None
     okm = False
     for t in ast.walk(d.node):
         if isinstance(t, ast.ExceptHandler) and t.type is not None and \
                 'ConflictError' in norm_text(t.type):
-            okm = 'errors.COMMAND_ERROR' in ' '.join(norm_text(x) for x in t.body)
+            vals = set()
+            for n in nodes_within(dcfg, t.body):
+                for c in n.calls():
+                    if astq.call_last(c) == 'send_error':
+                        kw = astq.kwarg(c, 'errno')
+                        if kw is None:
+                            vals.add('<default>')
+                            continue
+                        for a in rd.expand(n, kw):
+                            if rd.feasible(a, lambda e, v=t.name: is_conflict(e, v)):
+                                vals.add(a.text())
+            okm = vals == {'errors.COMMAND_ERROR'}
     run.check('R5', okm, 'dispatch maps ConflictError to errno COMMAND_ERROR', d, d.node)
     # two consecutive synchronized calls in one execute are not separated by a suspension
     for nm, e in sorted(cmds.items()):
